@@ -126,7 +126,11 @@ def mark1 (w : World α) (k : Key) (b : Broker α) : Broker α :=
       { b with margin := upd b.margin k (m1 - excess)
                cash := b.cash + excess
                lastMark := upd b.lastMark k (some p) }
-  | _, _ => b
+  | none, _ =>
+      -- no liquidation price: nothing can be marked - but when nothing is held, whatever is left in the margin
+      -- account (the settlement of the closing trade) goes back to cash; no price is needed for that (repair F11)
+      if b.pos k = 0 then { b with margin := upd b.margin k 0, cash := b.cash + b.margin k } else b
+  | some _, none => b
 
 /-- `Broker.marking_to_market()` over every contract with a margin entry -/
 def markAll (w : World α) (b : Broker α) : Broker α := b.held.foldl (fun b k => mark1 w k b) b
